@@ -76,6 +76,8 @@ fn model_fields(fs: &[(String, Ty)], xs: &[Val]) -> Option<Vec<(String, Tree)>> 
 
 pub fn key_string(kt: &KeyTy, k: &Val) -> Option<String> {
     match (kt, k) {
+        (KeyTy::SpannedKey(ik), Val::Spanned(_, _, x)) => key_string(ik, x),
+        (KeyTy::SpannedKey(ik), x) => key_string(ik, x),
         (KeyTy::SpannedStr, Val::Spanned(_, _, x)) | (KeyTy::NewtypeSpanned(_), Val::Spanned(_, _, x)) => key_string(&KeyTy::Str, x),
         (KeyTy::Str, Val::Str(s)) | (KeyTy::NewtypeStr(_), Val::Str(s)) | (KeyTy::SpannedStr, Val::Str(s)) | (KeyTy::NewtypeSpanned(_), Val::Str(s)) => {
             if crate::seam::is_private_key(s) {
@@ -85,6 +87,7 @@ pub fn key_string(kt: &KeyTy, k: &Val) -> Option<String> {
             }
         }
         (KeyTy::UnitVariant(_, vars), Val::Variant(i, _)) => Some(vars[*i].clone()),
+        (KeyTy::Char, Val::Char(c)) => Some(c.to_string()),
         _ => None,
     }
 }
@@ -245,8 +248,10 @@ pub fn refread(ty: &Ty, tree: &Tree) -> RefOut {
         }
         (Ty::Map(kt, vt), Tree::Tab(kvs)) => {
             let mut out = Vec::new();
+            let kt = &kt.despanned();
             for (k, x) in kvs {
                 let kv = match kt {
+                    KeyTy::SpannedKey(_) => return Unspecified,
                     KeyTy::Str | KeyTy::NewtypeStr(_) | KeyTy::SpannedStr | KeyTy::NewtypeSpanned(_) => crate::types::Val::Str(k.clone()),
                     KeyTy::UnitVariant(_, vars) => match vars.iter().position(|v| v == k) {
                         Some(i) => crate::types::Val::Variant(i, Box::new(crate::types::Val::Unit)),
